@@ -84,7 +84,7 @@ def write_files(sc, work):
         if sc.get("wfield"):
             import numpy as _np
             kk, jj, ii = _np.meshgrid(_np.arange(N + 1), _np.arange(jmax), _np.arange(imax), indexing="ij")
-            W = _np.stack([((f + kk + ii + 2 * jj) % 5 - 2) / 64.0 for f in fnum[a:b]])
+            W = sign * _np.stack([((f + kk + ii + 2 * jj) % 5 - 2) / 64.0 for f in fnum[a:b]])      # (the mirrored flow of C10 has the opposite sign in every component)
         name = os.path.join(work, fnames[n])
         glon, glat = geo_tables(sc) if sc.get("geo") else (None, None)
         make_roms(name, imax=imax, jmax=jmax, N=N, times=sc["ftimes"][a:b], mask=np.array(sc["M"], float), lon=glon, lat=glat,
